@@ -395,6 +395,11 @@ class Tdf:
         new_entry._write(entry_buffer)
         block_buffer = BytesIO()
         newBlock._write(block_buffer)
+        # the unused slots behind the new entry are written back as well: an entry
+        # that can't be encoded (a comment without terminator in a file from other
+        # software) must be noticed before anything changes
+        for entry in self.entries[unusedBlockPos + 1 :]:
+            entry._write(BytesIO())
 
         # replace the entry
         self.entries[unusedBlockPos] = new_entry
@@ -451,6 +456,12 @@ class Tdf:
             )
         except StopIteration:
             raise ValueError(f"No block of type {type} found")
+
+        # every entry behind the removed one, and every entry whose block moves, is
+        # written back: make sure they all can be before anything changes
+        for n, entry in enumerate(self.entries):
+            if n > oldEntryPos or entry.offset > oldEntry.offset:
+                entry._write(BytesIO())
 
         endOfFile = self.handler.seek(0, 2)
 
